@@ -109,10 +109,14 @@ def sequence(ctx, rng, n):
     emitted = 0
     for i in range(n):
         kind, cmd, toks, dom = gen_command(rng, wild=False)
+        if not dom:
+            continue        # only in-domain commands: every one of them must be emitted
         before = C.Command._message_id
         st, val = acgen.impl_tobytes(cmd)
         if st != "ok":
-            continue
+            ctx.violate("sequence", {"start": start, "index": i, "kind": kind, "tokens": toks}, {"raised": val},
+                        "a frame", "in-domain command could not be emitted")
+            break
         want = (start + emitted + 1) % 256
         got = bytes.fromhex(val)[-3]
         if got != want:
